@@ -12,6 +12,10 @@ import Skc.Drv.OpsC09
 import Skc.Drv.OpsC19
 import Skc.Drv.OpsC02
 import Skc.Drv.OpsC16
+import Skc.Drv.OpsScalers
+import Skc.Drv.OpsC15
+import Skc.Drv.OpsC10
+import Skc.Drv.OpsC20
 /-! Dispatch of driver operations to the executable model: one handler per property file. -/
 open Lean
 namespace Skc.Drv
@@ -30,6 +34,10 @@ def handlers : List (String → Json → Option (Except String Json)) :=
   , handleC19
   , handleC02
   , handleC16
+  , handleScalers
+  , handleC15
+  , handleC10
+  , handleC20
   ]
 
 def handle (j : Json) : Except String Json := do
